@@ -12,7 +12,7 @@ from hypothesis import strategies as st
 PI = math.pi
 TARGETS = ["car", "bicycle", "pedestrian", "truck", "bus", "motorbike"]
 ALL_AW = TARGETS + ["unknown", "animal"]
-TL_TARGETS = ["traffic_light", "green", "red", "yellow", "green_left", "red_straight"]
+TL_TARGETS = ["traffic_light", "green", "red", "yellow", "green_left", "red_straight", "unknown"]
 EPS = 1e-3
 
 
@@ -89,6 +89,7 @@ def scenes3d(
     unknown_est=True,
     mixed_frames=False,
     R=7,
+    twins=True,
     gt_label_mix=("t", "t", "t", "t", "nt", "fp", "unk"),
 ):
     """A frame: ground truths on distinct grid cells, estimates relative to them. All in ego coordinates."""
@@ -125,6 +126,14 @@ def scenes3d(
             o["name"] = draw(st.sampled_from(NAMES[lab]))
             o["attrs"] = draw(st.lists(st.sampled_from(ATTRS), max_size=2, unique=True))
         gt.append(o)
+    if twins and gt and (twins == "always" or draw(st.integers(0, 2)) == 0):
+        # two annotations side by side (a crowd, parked bicycles): same label, size, heading and height, centres 0.4-0.95 m
+        # apart -- distinct objects (P1 holds) that differ only by a small translation
+        g = gt[draw(st.integers(0, len(gt) - 1))]
+        off = draw(st.sampled_from([0.4, 0.6, 0.95]))
+        ax = draw(st.integers(0, 1))
+        t = dict(g, p=[g["p"][0] + (off if ax == 0 else 0.0), g["p"][1] + (off if ax == 1 else 0.0), g["p"][2]], uuid=f"g{len(gt)}")
+        gt.append(t)
     n_est = draw(counts(min_est, max_est))
     est = []
     conf_pool = [0.3, 0.6, 0.9]
@@ -252,6 +261,10 @@ def scenes2d(draw, max_gt=8, max_est=8, targets=None, allow_fp_gt=True, cams=CAM
     if fam != "autoware":
         for o in gt + est:
             o["fam"] = fam
+    if draw(st.integers(0, 2)) == 0:
+        # ROI objects that also carry a 3D position (traffic lights get one from the map); it must not influence pixel scores
+        for o in gt + est:
+            o["pos"] = [draw(fl(-40, 40)), draw(fl(-40, 40)), draw(fl(0, 6))]
     return {"targets": targets, "gt": gt, "est": est, "fam": fam}
 
 
